@@ -535,9 +535,15 @@ func (pt *c07Part) checkQuorum(index uint64, prev c07Digest) {
 	sort.Strings(valid)
 	sort.Strings(neverValid)
 	sort.Strings(leftISR)
+	counted := map[string]bool{}
+	for _, l := range [][]string{valid, leftISR, neverValid} {
+		for _, id := range l {
+			counted[id] = true
+		}
+	}
 	carried := c07Distinct(pt.reports, func(r c07Report) bool {
-		_, in := inWindow[r.reporter]
-		return r.seq > resetStart && r.accepted && !r.refused && !in
+		inWin := r.seq > windowStart && r.pair == cur
+		return r.seq > resetStart && r.accepted && !r.refused && !inWin && !counted[r.reporter]
 	})
 	carriedIDs := kit.SortedKeys(carried)
 	var fp, why string
@@ -798,7 +804,10 @@ func (pt *c07Part) exec(op c07Op) bool {
 
 	pt.mu.Lock()
 	defer pt.mu.Unlock()
-	if op.Kind == "R" && st != nil && st.Code() != codes.Internal {
+	if op.Kind == "R" && st != nil && st.Code() == codes.FailedPrecondition &&
+		(strings.Contains(st.Message(), "generation mismatch") || strings.Contains(st.Message(), "not an in-sync follower") || strings.Contains(st.Message(), "No such partition")) {
+		// the report itself was refused (an error of the failover it triggered
+		// does not mean the reporter was not counted)
 		for i := len(pt.reports) - 1; i >= 0; i-- {
 			if pt.reports[i].seq == mySeq {
 				pt.reports[i].refused = true
